@@ -81,6 +81,31 @@ def rule_P2(ctx, only=None, rid='C11.P2.slots'):
         out = st.targets[0].id
         where = ctx.where(mod, c)
         tasks = c.args[1] if len(c.args) > 1 else None
+        tdef = None
+        if isinstance(tasks, ast.Name):
+            # task list bound to a local first: resolve its single definition
+            ds = [n for n in ast.walk(fn) if isinstance(n, ast.Assign) and
+                  any(ast.unparse(t) == tasks.id for t in n.targets)]
+            if len(ds) == 1 and ds[0].lineno < c.lineno:
+                tdef = ds[0]
+                # hand-over point: in file-based mode the task is written to
+                # disk when it is built; state changed between building the
+                # tasks and starting the workers reaches only the in-memory
+                # tasks (which alias it), not the files
+                late = [n for n in ast.walk(fn)
+                        if isinstance(n, (ast.Assign, ast.AugAssign)) and
+                        tdef.lineno < n.lineno < st.lineno and any(
+                            ast.unparse(t).startswith('self.')
+                            for t in store_targets(n))]
+                ctx.check(rid.replace('slots', 'handover'),
+                          f'{qn}: nothing changes between task creation and '
+                          'process_map', not late,
+                          f'`{au.stext(late[0]) if late else ""}` runs after '
+                          'the tasks were built (and, with file_dir, already '
+                          'written to disk): sequential/in-memory and '
+                          'file-based runs see different inputs',
+                          ctx.where(mod, late[0] if late else c))
+                tasks = tdef.value
         ok = (isinstance(tasks, ast.Call) and ast.unparse(tasks.func) == 'list'
               and isinstance(tasks.args[0], ast.Call) and
               ast.unparse(tasks.args[0].func) == 'map' and
